@@ -23,7 +23,82 @@ fn gen_range_elem(t: &mut Tape, atoms: &Atoms, ins: &mut Vec<Ins>) -> (usize, (u
 }
 
 /// pattern program: s = concat of elements, r derived from s (often included, sometimes a near miss)
+/// wide unions / intersections (more than 8 operands) against a product of ranges or a word:
+/// "every operand is included" / "included in every operand" must really look at every operand
+fn gen_wide(t: &mut Tape) -> (Prog, usize, usize) {
+    // ten landmarks: a..h adjacent, plus p and z
+    let atoms = Atoms::from_landmarks(vec![0x61, 0x62, 0x63, 0x64, 0x65, 0x66, 0x67, 0x68, 0x70, 0x7A]);
+    let mut ins: Vec<Ins> = Vec::new();
+    let k = 7 + t.choose(9); // 7..15 operands
+    let bad = t.weighted(&[3, 4, 2]); // how many operands break the inclusion
+    if t.flag() {
+        // r = union of k distinct two-letter words, s = R1.R2 with R1 = [a..x], R2 = [y..z']
+        let hi1 = 0x63 + t.choose(6) as u32; // c..h
+        let r1 = push(&mut ins, Ins::Range(0x61, hi1));
+        let lo2 = t.pick(&[0x61u32, 0x64, 0x70]);
+        let hi2 = t.pick(&[0x70u32, 0x7A, 0x2FFFF]).max(lo2);
+        let r2 = push(&mut ins, Ins::Range(lo2, hi2));
+        let s = push(&mut ins, Ins::Concat(r1, r2));
+        let firsts: Vec<u32> = (0x61..=hi1).collect();
+        let seconds: Vec<u32> = atoms.landmarks.iter().copied().filter(|&l| lo2 <= l && l <= hi2).collect();
+        // k distinct included words (as many as exist), in a tape-chosen order
+        let mut pool: Vec<Vec<u32>> = Vec::new();
+        for &a in &firsts {
+            for &b in &seconds {
+                pool.push(vec![a, b]);
+            }
+        }
+        for i in (1..pool.len()).rev() {
+            let j = t.choose(i + 1);
+            pool.swap(i, j);
+        }
+        pool.truncate(k);
+        let mut words = pool;
+        // the words that break the inclusion: a letter outside the range, at a tape-chosen position in the list
+        let outside1: Vec<u32> = atoms.landmarks.iter().copied().filter(|&l| l > hi1).collect();
+        for _ in 0..bad {
+            let w = if t.flag() && !outside1.is_empty() { vec![outside1[t.choose(outside1.len())], seconds[t.choose(seconds.len())]] } else { vec![firsts[t.choose(firsts.len())], t.pick(&[0x62u32, 0x63])] };
+            let pos = if t.flag() { words.len() } else { t.choose(words.len() + 1) };
+            words.insert(pos, w);
+        }
+        let mut ops = Vec::new();
+        for w in words {
+            ops.push(push(&mut ins, Ins::Str(w)));
+        }
+        let r = push(&mut ins, Ins::UnionList(ops));
+        push(&mut ins, Ins::Union(r, s));
+        let c1 = push(&mut ins, Ins::Complement(r));
+        let c2 = push(&mut ins, Ins::Complement(s));
+        push(&mut ins, Ins::Union(c1, c2));
+        (Prog { atoms, ins }, r, s)
+    } else {
+        // r = a word, s = intersection of k languages "contains the letter c_i"
+        let full = push(&mut ins, Ins::Full);
+        let wlen = 3 + t.choose(6);
+        let w: Vec<u32> = (0..wlen).map(|_| atoms.pick_landmark(t)).collect();
+        let r = push(&mut ins, Ins::Str(w.clone()));
+        let mut letters: Vec<u32> = (0..k).map(|i| w[i % w.len()]).collect();
+        for _ in 0..bad {
+            let which = t.choose(k);
+            letters[which] = atoms.pick_landmark(t);
+        }
+        let mut ops = Vec::new();
+        for (i, c) in letters.into_iter().enumerate() {
+            // distinct terms even for equal letters: Sigma* c Sigma* / Sigma* c Sigma* Sigma^[0,i]
+            let ch = push(&mut ins, Ins::Range(c, c));
+            let tail = if i % 3 == 0 { full } else { push(&mut ins, Ins::SmtLoop(full, 0, 1 + i as u32 % 3)) };
+            ops.push(push(&mut ins, Ins::ConcatList(vec![full, ch, tail])));
+        }
+        let s = push(&mut ins, Ins::InterList(ops));
+        push(&mut ins, Ins::Union(r, s));
+        (Prog { atoms, ins }, r, s)
+    }
+}
+
 pub fn gen_pair(t: &mut Tape) -> (Prog, usize, usize) {
+    if t.bool_p(40) {
+        return gen_wide(t);
+    }
     let atoms = Atoms::decode(t, 5);
     let n = atoms.len();
     let mut ins: Vec<Ins> = Vec::new();
@@ -213,6 +288,9 @@ pub fn run(tape: &[u8], cx: &Cx) -> Outcome {
     }
     if claims >= 3 {
         o.tag(">=3-claims");
+    }
+    if prog.has(|i| matches!(i, Ins::UnionList(v) | Ins::InterList(v) if v.len() >= 9)) {
+        o.tag("wide-union/intersection");
     }
     if o.nontrivial {
         o.tag("non-trivial-claim");
